@@ -74,6 +74,7 @@ class Results:
         self.items = []      # dict(rule,key,status,where,detail)
         self.analysed = {}
         self.notes = []
+        self.anchor_errors = []
 
     def _add(self, status, rule, key, where, detail, path=None):
         self.items.append({"rule": rule, "key": "%s|%s" % (rule, key), "status": status,
@@ -92,9 +93,10 @@ class Results:
         self.notes.append(s)
 
     def floor(self, rule, what, count, minimum):
-        """A rule that matches fewer instances than confirmed by hand fails closed."""
+        """A rule that matches fewer instances than confirmed by hand fails closed: the check ends with
+        exit 2 (ERROR anchor-missing) unless a violation was found as well, which is then reported."""
         if count < minimum:
-            raise F.AnchorMissing("%s: %s: found %d instance(s), floor is %d" % (rule, what, count, minimum))
+            self.anchor_errors.append("%s: %s: found %d instance(s), floor is %d" % (rule, what, count, minimum))
 
     def check(self, cond, rule, key, where, detail_ok="", detail_bad="", path=None):
         if cond:
